@@ -2,6 +2,7 @@ package c15
 
 import (
 	"bytes"
+	"context"
 	"crypto/sha256"
 	"encoding/hex"
 	"encoding/json"
@@ -17,6 +18,8 @@ import (
 	. "verifharness/h"
 
 	ocr2keepers "github.com/smartcontractkit/chainlink-automation/pkg/v3"
+	"github.com/smartcontractkit/libocr/offchainreporting2plus/ocr3types"
+	ocr2plustypes "github.com/smartcontractkit/libocr/offchainreporting2plus/types"
 	simutil "github.com/smartcontractkit/chainlink-automation/tools/simulator/util"
 	common "github.com/smartcontractkit/chainlink-common/pkg/types/automation"
 )
@@ -1000,6 +1003,23 @@ func keep(k keptDecode) {
 	}
 }
 
+// validator: a plug-in instance that lives for the whole run.  ReportingPlugin.ValidateObservation is a function of the
+// bytes it is handed: for one sequence number and one oracle (a round retried in a later epoch delivers other bytes
+// under the same pair) its verdict must be the decoder's verdict on those bytes, whatever it was asked before.
+var validator *Node
+
+func validatorAgrees(b []byte, decodeErr error) (bool, string) {
+	if validator == nil {
+		return true, ""
+	}
+	verr := validator.Plugin.ValidateObservation(context.Background(), ocr3types.OutcomeContext{SeqNr: 7}, nil,
+		ocr2plustypes.AttributedObservation{Observation: b, Observer: 2})
+	if (verr == nil) != (decodeErr == nil) {
+		return false, fmt.Sprintf("ValidateObservation says %v, the decoder says %v for the same bytes", verr, decodeErr)
+	}
+	return true, ""
+}
+
 func runCase(c *c15Case) (encoded []byte) {
 	wg := wgFor(c.WidPrefix)
 	c.Observed = observedG{}
@@ -1036,6 +1056,11 @@ func runCase(c *c15Case) (encoded []byte) {
 			c.Observed.Same = eqObs(v, d)
 			if c.Observed.Same {
 				keep(keptDecode{obsV: &v, obsD: &d})
+			}
+		}
+		if c.WidPrefix == "" { // the plug-in is built with the standard work-id generator
+			if ok, why := validatorAgrees(b, err); !ok {
+				c.Observed.Code, c.Observed.Same, c.Observed.ErrText = 96, false, why
 			}
 		}
 	} else {
@@ -1727,6 +1752,8 @@ func childCases(t *testing.T, dir string) {
 	}
 	defer f.Close()
 	start := EnvInt("VERIF_C15_START", 0)
+	validator = NewNode(t, NodeOpts{N: 4, F: 1}) // one long-lived instance: ReportingPlugin.ValidateObservation for every obs case
+	defer validator.Plugin.Close()
 	for i := start; i < len(cases); i++ {
 		c := cases[i]
 		runCase(&c)
